@@ -63,14 +63,93 @@ def run(ctx, model_available=True):
     res = run_property(ctx, "C05", profiles=profiles, histories=hs, n_quick=500, n_thorough=8000, oracle=oracle_c05,
                        model_available=model_available,
                        assumptions=["release strings outside the grammar [vV]?d+(.d+)*.? are compared by the AwesomeVersion library (oracle); the selection table is checked only inside the grammar"])
-    res["failures"] = failures[:3] + res["failures"]
-    res["evaluations"] += n
+    pf, pn = persistence_sessions(ctx)
+    res["failures"] = failures[:3] + pf + res["failures"]
+    res["evaluations"] += n + pn
+    res["distribution"]["persistence_sessions"] = pn
     res["distribution"]["version_grid"] = n
     return res
 
 
+def persistence_sessions(ctx):
+    """Sessions on a real persistence file.  Node 0 is stored with the version of the gateway's last
+    PRESENTATION; that is registry content, not a version report.  (a) the same Gateway object
+    leaving and entering again keeps the state its last report left (reconnect is the identity in
+    the model); (b) a new Gateway object on the same file has been told no version: version unknown,
+    1.4 rules — a 2.x-only internal type is refused as unsupported — until the gateway reports."""
+    import asyncio
+    import os
+    import shutil
+    import tempfile
+
+    from common import Config, Gateway, ScriptedTransport, ex
+
+    async def feed(gw, line):
+        gw.transport.inq.append(line)
+        try:
+            await anext(gw.listen())
+        except ex.AIOMySensorsError as e:
+            return type(e).__name__
+        return "ok"
+
+    def state(gw):
+        return gw.protocol_version, gw.protocol.VERSION
+
+    fs, n = [], 0
+    base = tempfile.mkdtemp(prefix="amsverif_c05_")
+
+    async def one(presented, replied):
+        problems = []
+        path = os.path.join(base, f"p{n}.json")
+        gw = Gateway(ScriptedTransport(), Config(persistence_file=path))
+        async with gw:
+            await feed(gw, f"0;255;0;0;18;{presented}")
+            await feed(gw, "5;255;0;0;17;" + presented)
+            if replied:
+                await feed(gw, f"0;255;3;0;2;{replied}")
+            last = state(gw)
+            want = (replied or presented, newest_leq(replied or presented))
+            if last != want:
+                problems.append(f"after presentation {presented}" + (f" and version reply {replied}" if replied else "") + f": state {last}, required {want}")
+        async with gw:
+            if state(gw) != last:
+                problems.append(f"the same Gateway object entered again (nothing reported in between; presented {presented}, last report {replied or presented}): state {state(gw)}, before leaving {last}")
+        gw2 = Gateway(ScriptedTransport(), Config(persistence_file=path))
+        async with gw2:
+            if 0 not in gw2.nodes:
+                problems.append("node 0 was not restored from the file")
+            if state(gw2) != (None, "1.4"):
+                problems.append(f"a new Gateway object on the file of a gateway that presented itself as {presented}: no version reported to it yet, state {state(gw2)}, required (None, '1.4')")
+            r = await feed(gw2, "5;255;3;0;22;7")
+            if r != "UnsupportedMessageError":
+                problems.append(f"restart, before any report: internal type 22 (does not exist in 1.4) -> {r}")
+            await feed(gw2, f"0;255;3;0;2;{replied or presented}")
+            want = (replied or presented, newest_leq(replied or presented))
+            if state(gw2) != want:
+                problems.append(f"restart, then version reply {replied or presented}: state {state(gw2)}, required {want}")
+        return problems
+
+    for presented in ("2.0.0", "2.2.0", "1.5", "2.1.1"):
+        for replied in (None, "2.3.2", "1.4.1", "2.0"):
+            n += 1
+            try:
+                problems = asyncio.run(one(presented, replied))
+            except Exception as e:  # noqa: BLE001
+                problems = [f"{type(e).__name__}: {e} escaped from a session on a persistence file"]
+            for pr in problems:
+                fs.append({"kind": "oracle", "sig": "C05:persistence-sessions", "desc": pr,
+                           "case": {"sessions": [presented, replied]}})
+    shutil.rmtree(base, ignore_errors=True)
+    return fs[:2], n
+
+
 def replay(ctx, rp):
     case = rp.get("case") or {}
+    if "sessions" in case:
+        pf, _ = persistence_sessions(ctx)
+        for f in pf:
+            print(f["desc"])
+        return 1 if pf else 0
     if "version" in case:
         from aiomysensors.model import protocol as P
 
